@@ -166,6 +166,9 @@ func (s *wstub) reviewCount() int {
 type lazyAuthn struct {
 	get    func() authenticator.Request
 	before *atomic.Value // func()
+	// after: fired when the production authenticator has returned, i.e. after the token review has passed its ownership
+	// check and before the request travels on towards the dispatcher
+	after *atomic.Value
 }
 
 func oneShot(v *atomic.Value) {
@@ -180,17 +183,22 @@ func oneShot(v *atomic.Value) {
 
 func (l lazyAuthn) AuthenticateRequest(req *http.Request) (*authenticator.Response, bool, error) {
 	oneShot(l.before)
-	return l.get().AuthenticateRequest(req)
+	resp, ok, err := l.get().AuthenticateRequest(req)
+	oneShot(l.after)
+	return resp, ok, err
 }
 
 type lazyAuthz struct {
 	get    func() authorizer.Authorizer
 	before *atomic.Value
+	after  *atomic.Value // fired when the production authorizer has returned its decision
 }
 
 func (l lazyAuthz) Authorize(ctx context.Context, a authorizer.Attributes) (authorizer.Decision, string, error) {
 	oneShot(l.before)
-	return l.get().Authorize(ctx, a)
+	d, reason, err := l.get().Authorize(ctx, a)
+	oneShot(l.after)
+	return d, reason, err
 }
 
 type wiredWorld struct {
@@ -207,7 +215,7 @@ type wiredWorld struct {
 	down        map[string]bool // cluster -> its endpoint currently fails the health probes
 	recreations int
 
-	beforeAuthn, beforeAuthz atomic.Value
+	beforeAuthn, beforeAuthz, afterAuthn, afterAuthz atomic.Value
 
 	gone    map[string]bool // cluster object deleted right now
 	retired []*retiredStub  // upstreams of deleted incarnations: nothing may reach them any more
@@ -521,8 +529,8 @@ func wired(r *vkit.R) {
 			})
 		}
 		w.gw = bed.NewGateway(bed.GatewayOptions{
-			Authn: lazyAuthn{func() authenticator.Request { build(); return an }, &w.beforeAuthn},
-			Authz: lazyAuthz{func() authorizer.Authorizer { build(); return az }, &w.beforeAuthz},
+			Authn: lazyAuthn{func() authenticator.Request { build(); return an }, &w.beforeAuthn, &w.afterAuthn},
+			Authz: lazyAuthz{func() authorizer.Authorizer { build(); return az }, &w.beforeAuthz, &w.afterAuthz},
 		})
 		defer w.gw.Close()
 		for _, c := range w.names {
@@ -617,7 +625,8 @@ func wired(r *vkit.R) {
 			w.send(wreq{Host: a, Token: fresh + "-before", Impersonate: "admin"}, true)
 			if phase%2 == 1 {
 				// the move happens while a request for the alias is inside the handler chain
-				if !w.moveDuringRequest(a, from, to, g.Bool(), setAlias) {
+				point := []string{"before-authn", "before-authz", "after-authn", "after-authz"}[(i*2+phase/2)%4]
+				if !w.moveDuringRequest(a, from, to, point, setAlias) {
 					return
 				}
 			}
@@ -701,6 +710,9 @@ func wired(r *vkit.R) {
 		r.Require(r.Counter("wired_impersonation_granted_by_own_cluster") > int64(nw), "wired: impersonation was never granted")
 		r.Require(r.Counter("wired_alias_moves") >= int64(nw*phases*3/4), "wired: too few alias moves")
 		r.Require(r.Counter("wired_clusters_recreated_under_same_name") >= int64(nw*3/4) && r.Counter("wired_requests_after_recreation") >= int64(nw*8), "wired: too few clusters deleted and created again under the same name")
+		for _, pt := range []string{"before-authn", "before-authz", "after-authn", "after-authz"} {
+			r.Require(r.Counter("wired_moves_during_request_"+pt) >= int64(nw/4), "wired: too few alias moves "+pt+" of a request")
+		}
 		r.Require(r.Counter("wired_moves_during_request") >= int64(nw), "wired: too few alias moves made while a request for the alias was inside the handler chain")
 		r.Require(r.Counter("wired_outages_after_alias_move") >= int64(nw*phases/2) && r.Counter("wired_requests_during_outage") >= int64(nw*phases*2), "wired: too few outages of the new owner after an alias move")
 		r.Require(r.Counter("wired_requests_with_tls_state") >= int64(nw*40) && r.Counter("wired_requests_sni_names_other_cluster_than_host") >= int64(nw*15), "wired: too few requests whose TLS server name differs from the Host header")
@@ -708,16 +720,27 @@ func wired(r *vkit.R) {
 }
 
 // moveDuringRequest: a request for alias a (owned by `from`) is being processed - the dispatch cluster is already resolved -
-// when the alias moves to `to` (release, then claim), either just before the token is authenticated or just before the
-// impersonation is authorized. Whatever cluster ends up serving the request, the identity it is served under and every
+// when the alias moves to `to` (release, then claim): just before the token is authenticated, just before the impersonation
+// is authorized, or right after the authenticator / the authorizer has returned (the reviews have passed their ownership
+// checks, the request is on its way to the dispatcher). Whatever cluster ends up serving the request, the identity it is served under and every
 // review made for it must come from THAT cluster; a refusal is always fine.
-func (w *wiredWorld) moveDuringRequest(a, from, to string, atAuthz bool, setAlias func(a, c string)) bool {
+func (w *wiredWorld) moveDuringRequest(a, from, to string, point string, setAlias func(a, c string)) bool {
 	r := w.r
-	// credentials both clusters know (otherwise nothing can be observed): a token both authenticate
+	atAuthz := strings.HasSuffix(point, "authz")
+	// credentials both clusters know (otherwise nothing can be observed): a token both authenticate, and - for the
+	// impersonating request - a user whom both allow to impersonate
+	allows := func(c, t string) bool {
+		if !atAuthz {
+			return true
+		}
+		sp := authorizationv1.SubjectAccessReviewSpec{User: "user-of-" + t + "@" + w.ident(c), Groups: []string{"grp@" + w.ident(c), "system:authenticated"},
+			ResourceAttributes: &authorizationv1.ResourceAttributes{Verb: "impersonate", Resource: "users", Name: "admin", Version: "v1"}}
+		return w.stubs[c].answer("sar", sarKey(&sp)) == ansYes
+	}
 	tok := ""
-	for k := 0; k < 200 && tok == ""; k++ {
+	for k := 0; k < 400 && tok == ""; k++ {
 		t := fmt.Sprintf("tok-move-%d-%d-%d", w.idx, w.idn, k)
-		if w.stubs[from].answer("token", t) == ansYes && w.stubs[to].answer("token", t) == ansYes {
+		if w.stubs[from].answer("token", t) == ansYes && w.stubs[to].answer("token", t) == ansYes && allows(from, t) && (strings.HasPrefix(point, "after") || allows(to, t)) {
 			tok = t
 		}
 	}
@@ -734,10 +757,9 @@ func (w *wiredWorld) moveDuringRequest(a, from, to string, atAuthz bool, setAlia
 	q := wreq{Host: a, Token: tok}
 	if atAuthz {
 		q.Impersonate = "admin"
-		w.beforeAuthz.Store(move)
-	} else {
-		w.beforeAuthn.Store(move)
 	}
+	hook := map[string]*atomic.Value{"before-authn": &w.beforeAuthn, "before-authz": &w.beforeAuthz, "after-authn": &w.afterAuthn, "after-authz": &w.afterAuthz}[point]
+	hook.Store(move)
 	w.lock.Lock()
 	w.idn++
 	id := fmt.Sprintf("c12w-%d-%d", w.idx, w.idn)
@@ -751,8 +773,9 @@ func (w *wiredWorld) moveDuringRequest(a, from, to string, atAuthz bool, setAlia
 		req.Header.Set("Impersonate-User", "admin")
 	}
 	rec := w.gw.Serve(req)
-	w.beforeAuthn.Store((func())(nil))
-	w.beforeAuthz.Store((func())(nil))
+	for _, h := range []*atomic.Value{&w.beforeAuthn, &w.beforeAuthz, &w.afterAuthn, &w.afterAuthz} {
+		h.Store((func())(nil))
+	}
 	if !okMove {
 		return false
 	}
@@ -762,11 +785,8 @@ func (w *wiredWorld) moveDuringRequest(a, from, to string, atAuthz bool, setAlia
 		r.Count("wired_move_during_request_not_reached", 1)
 		return okMove
 	}
-	point := "before-authn"
-	if atAuthz {
-		point = "before-authz"
-	}
 	r.Count("wired_moves_during_request", 1)
+	r.Count("wired_moves_during_request_"+point, 1)
 	desc := fmt.Sprintf("GET pods Host=%q token=%q impersonate=%q; the alias moved %s -> %s %s of this request -> %d", a, tok, q.Impersonate, from, to, point, rec.Code)
 	w.lock.Lock()
 	w.log = append(w.log, "MOVE DURING REQUEST: "+desc)
